@@ -324,9 +324,7 @@ class Pipeline(T2Case):
     def interp(self, ctx):
         sm = dict(summaries())
         if "C02" in self.props:
-            from contracts import loops
-
-            sm.update(loops.canonical_leb_summaries())
+            ctx.ghost["assume_canonical_leb"] = True  # C02's explicit premise (minimal LEB128)
         return Interp(ctx, summaries=sm, unroll=UNROLL)
 
     def body(self, ctx):
